@@ -287,16 +287,21 @@ def run(ctx: Ctx):
                 cons = f"{fn.qualname}:PeerConnection@{tag}"
                 ctx.use(fn)
                 ctx.inst(cons, sample={"where": gg.loc(n), "var": cv})
+                from ..effects import fault_effects_of
+                gg = cfg_of(fn, effects=fault_effects_of(model))
+                n = [x for x in gg.nodes if any(isinstance(c, ast.Call) and A.call_name(c) == "PeerConnection"
+                                                and c.lineno == node.lineno for c in x.calls())][0]
                 owners = [m for m in gg.nodes if any(
                     A.call_name(c) == "self._add_peer_connection" and c.args and A.dotted(c.args[0]) == cv
                     for c in m.calls())]
-                stops = [x for x in gg.nodes if x.kind in ("iter", "loop")] + [gg.exit]
-                after = gg.reach([d for l, d in n.succ if l != "exc"], normal_blocked=owners,
-                                 blocked=[x for x in gg.nodes if x.kind == "stmt" and x is not n and any(
+                stops = [x for x in gg.nodes if x.kind in ("iter", "loop")] + [gg.exit, gg.raise_exit]
+                after = gg.reach([d for l, d in n.succ if l != "exc"],
+                                 blocked=owners + [x for x in gg.nodes if x.kind == "stmt" and x is not n and any(
                                      A.dotted(t) == cv for t in x.stores())])
                 if any(s in after for s in stops):
                     ctx.fail(cons, gg.loc(n), f"a PeerConnection constructed in {fn.qualname} can be "
-                             f"dropped without being handed to _add_peer_connection: its worker "
+                             f"dropped without being handed to _add_peer_connection (e.g. when a later "
+                             f"statement such as the socket constructor raises): its two worker "
                              f"threads are never stopped")
     # dial refused / failed connect
     cp = nc.methods.get("_connect_to_peer")
@@ -315,3 +320,8 @@ def run(ctx: Ctx):
                          "have refused (and closed) the connection")
                 break
     closed_connections_are_removed(ctx, "C18-R4b")
+    from . import c12
+    ctx.include(c12.run, {"C12-R1", "C12-R5"}, "C18-R5",
+                "the DPR/DPA exchange of a shutdown: send_dpr marks DISCONNECTING, a DPA always "
+                "leads to CLOSING + wake-up, and nothing turns a DISCONNECTING connection back into a "
+                "ready one", floor=5)
